@@ -51,6 +51,11 @@ def len_upper_bound(term, pol, B):
     return None
 
 
+def _byte_of(x, sl):
+    """A single byte of the dispatched packet (packet[0] handed to a look-up helper): not the packet, so not a hand-over to a handler."""
+    return isinstance(x, tuple) and len(x) == 3 and x[0] == "sub" and x[1] == sl and is_const(x[2])
+
+
 def leaves_of_sum(t):
     if isinstance(t, tuple) and t[0] == "binop" and t[1] == "Add":
         return leaves_of_sum(t[2]) + leaves_of_sum(t[3])
@@ -401,7 +406,7 @@ def check(ctx):
             # F7
             depth = len(D.stack) + 1
             inner_calls = [e for e in bp.walk() if e.kind == "CALL" and len(e.stack) == depth and e.stack[:len(D.stack)] == D.stack and e.a["recv"] == SELF
-                           and inside(e, D) and not all(is_text(x) for x in e.a["args"])]
+                           and inside(e, D) and not all(is_text(x) or _byte_of(x, sl) for x in e.a["args"])]
             ctx.ob("F7", "%s dispatcher hands the whole packet to at most one handler" % cq,
                    len(inner_calls) <= 1 and all(x.a["args"] == (sl,) for x in inner_calls), where=where(inner_calls[0]) if inner_calls else where(D),
                    function=D.a["func"], construct="%s/handler-arg" % D.a["func"],
@@ -522,7 +527,7 @@ def offset_idiom(ctx, cls, cq, prog, p0, ent, outer, B, carry, framer_q, framer,
                function=framer_q, construct="%s/continuation-mask" % framer_q, msg="the framer scans with mask %s, decodeLength continues on %s" % (sorted(masks), sorted(cont)))
         depth = len(D.stack) + 1
         inner_calls = [e for e in bp.walk() if e.kind == "CALL" and len(e.stack) == depth and e.stack[:len(D.stack)] == D.stack and e.a["recv"] == SELF
-                       and not all(is_text(x) for x in e.a["args"])]
+                       and not all(is_text(x) or _byte_of(x, sl) for x in e.a["args"])]
         ctx.ob("F7", "%s dispatcher hands the whole packet to at most one handler" % cq, len(inner_calls) <= 1 and all(x.a["args"] == (sl,) for x in inner_calls),
                where=where(inner_calls[0]) if inner_calls else where(D), function=D.a["func"], construct="%s/handler-arg" % D.a["func"],
                msg="handlers called with %s" % [[show(y) for y in x.a["args"]] for x in inner_calls])
